@@ -209,24 +209,47 @@ func jsonScenario(t jsonTarget) engine.Scenario {
 			return out, r
 		}
 		if mi < 0 {
-			// the literal's own encoding, into a fresh receiver (0) and into receivers that hold another literal
-			used := t.others()
-			ri := c.Choose(1+len(used), "receiver")
+			// the own encoding of every catalogue literal of the type, into a fresh receiver (0) and into receivers that
+			// hold each of the other catalogue literals
+			all := append([]interface{}{t.sample()}, t.others()...)
+			si := c.Choose(len(all), "source")
+			ri := c.Choose(1+len(all), "receiver")
 			c.Cover("json", "own-encoding")
-			if ri > 0 {
-				c.Cover("json", "own-encoding-into-used-receiver")
-				out := used[ri-1]
-				before := fmt.Sprintf("%+v", out)
-				r := guarded(fmt.Sprint(name, "|used|", ri), func() error { return json.Unmarshal(text, out) })
+			if si > 0 || ri > 0 {
+				if ri-1 == si {
+					c.Skip("receiver equals source")
+					return
+				}
+				src := all[si]
+				stext, err := json.Marshal(src)
+				if err != nil {
+					c.Fail("C19/json/"+t.name+"/marshal-error", "%v", err)
+					return
+				}
+				out, kind := t.fresh(), "fresh receiver"
+				if ri > 0 {
+					c.Cover("json", "own-encoding-into-used-receiver")
+					out = append([]interface{}{t.sample()}, t.others()...)[ri-1]
+					kind = fmt.Sprintf("receiver that held %+v", out)
+				}
+				r := guarded(fmt.Sprint(name, "|used|", si, ri), func() error { return json.Unmarshal(stext, out) })
+				// equality of literals = equality of their encodings (reflect.DeepEqual would also compare the working
+				// precision of big.Float fields, which the text encoding legitimately does not carry)
+				same := func() bool {
+					again, err := json.Marshal(out)
+					return err == nil && string(again) == string(stext)
+				}
 				switch {
 				case r.hung || r.panicked != nil:
-					c.Fail("C19/json/"+t.name+"/own-encoding-panic-or-hang", "into a used receiver: %s: %v", text, r)
+					c.Fail("C19/json/"+t.name+"/own-encoding-panic-or-hang", "into a %s: %s: %v", kind, stext, r)
 				case r.err != nil:
-					c.Fail("C19/json/"+t.name+"/own-encoding-not-decodable", "into a used receiver: %v\n%s", r.err, text)
-				case !reflect.DeepEqual(orig, out):
-					c.Fail("C19/json/"+t.name+"/decoding-keeps-fields-of-the-receiver", "Unmarshal(Marshal(l)) into a receiver that held %s gives %+v, want %+v (json %s)", before, out, orig, text)
+					c.Fail("C19/json/"+t.name+"/own-encoding-not-decodable", "into a %s: %v\n%s", kind, r.err, stext)
+				case ri > 0 && !same():
+					c.Fail("C19/json/"+t.name+"/decoding-keeps-fields-of-the-receiver", "Unmarshal(Marshal(l)) into a %s gives %+v, want %+v (json %s)", kind, out, src, stext)
+				case !same():
+					c.Fail("C19/json/"+t.name+"/own-encoding-differs", "Unmarshal(Marshal(l)) != l:\n have %+v\n want %+v\n json %s", out, src, stext)
 				}
-				c.Outcome(name, "own-used", ri, r.String())
+				c.Outcome(name, "own", si, ri, r.String())
 				return
 			}
 			out, r := decode("own", string(text))
